@@ -1,10 +1,10 @@
 //! C10 / C14: collision task enumeration (hook H3, B1 replay of Gen_Collision), collision verdicts on
 //! constructive scenes (B2, judged by Trace_Collision from brute-force distances), single-joint offsets.
-use crate::scene::{self, Scene, BASE, ENV0, TOOL};
+use crate::scene::{self, Scene, WBox, BASE, ENV0, TOOL};
 use crate::util::*;
 use nalgebra::Isometry3;
 use rand::Rng;
-use rs_opw_kinematics::collisions::{CheckMode, RobotBody, SafetyDistances, NEVER_COLLIDES};
+use rs_opw_kinematics::collisions::{BaseBody, CheckMode, CollisionBody, RobotBody, SafetyDistances, NEVER_COLLIDES};
 use rs_opw_kinematics::constraints::{Constraints, BY_PREV};
 use rs_opw_kinematics::kinematic_traits::{Joints, Kinematics};
 use rs_opw_kinematics::kinematics_impl::OPWKinematics;
@@ -341,7 +341,64 @@ pub fn record_geometry(output: &str) {
             }
         }
     }
+    rx160_cases(&mut out, &mut r);
     out.finish();
+}
+
+/// The bundled Staubli RX160 meshes (83 kB .. 741 kB STL files, thousands of triangles each) on the RX160 kinematics,
+/// with boxes of 12 vertices scattered around the arm: meshes of very different vertex counts, real self-distances.
+fn rx160_cases(out: &mut Out, r: &mut rand::rngs::StdRng) {
+    let repo = std::env::var("VERIF_REPO").unwrap_or_else(|_| "/repo".into());
+    let dir = format!("{}/src/tests/data/staubli/rx160", repo);
+    #[allow(deprecated)]
+    let load = |name: &str| guarded(|| rs_opw_kinematics::read_trimesh::load_trimesh_from_stl(&format!("{}/{}", dir, name)));
+    let mut links = Vec::new();
+    for i in 1..=6 { match load(&format!("link_{}.stl", i)) { Some(m) => links.push(m), None => return } }
+    let Some(base_mesh) = load("base_link.stl") else { return };
+    let kin = OPWKinematics::new(Parameters::staubli_rx160());
+    let n = if thorough() { 60 } else { 8 };
+    for k in 0..n {
+        let q0: Joints = std::array::from_fn(|i| r.gen_range(-1.0..1.0) * [2.5, 1.8, 2.2, 3.0, 2.0, 3.0][i]);
+        let poses = kin.forward_with_joint_poses(&q0);
+        // boxes near randomly chosen links: 5 to 60 cm from the link origin
+        let nenv = 1 + k % 3;
+        let env: Vec<CollisionBody> = (0..nenv).map(|_| {
+            let o = poses[r.gen_range(1..6)].translation.vector;
+            let d = r.gen_range(0.05..0.6);
+            let dir = [r.gen_range(-1.0..1.0), r.gen_range(-1.0..1.0), r.gen_range(-1.0..1.0f64)];
+            let nn = (dir[0] * dir[0] + dir[1] * dir[1] + dir[2] * dir[2]).sqrt().max(1e-3);
+            let b = WBox { c: [o.x + d * dir[0] / nn, o.y + d * dir[1] / nn, o.z + d * dir[2] / nn], h: [0.03, 0.05, 0.04] };
+            let pose = Isometry3::new(nalgebra::Vector3::new(0.1, -0.2, 0.05), nalgebra::Vector3::new(0.0, 0.2, 0.4));
+            CollisionBody { mesh: scene::local_mesh(&b, false, &pose), pose: pose.cast() }
+        }).collect();
+        // adjacent real links overlap at the joints and are never compared; (J1, J3) and base-J2 style pairs are real
+        let table: Vec<(usize, usize, i64)> = if k % 2 == 0 { vec![] } else { vec![(0, 2, -1_000_000), (1, BASE, 30_000)] };
+        let (def_env, def_robot) = [(0i64, 0i64), (50_000, 10_000)][k % 2];
+        let tj = table_json(&table);
+        for (mode_name, mode) in [("all", CheckMode::AllCollsions), ("first", CheckMode::FirstCollisionOnly)] {
+            let body = RobotBody {
+                joint_meshes: std::array::from_fn(|i| links[i].clone()),
+                tool: None,
+                base: Some(BaseBody { mesh: base_mesh.clone(), base_pose: Isometry3::identity() }),
+                collision_environment: env.iter().map(|e| CollisionBody { mesh: e.mesh.clone(), pose: e.pose }).collect(),
+                safety: safety_from(&tj, def_env, def_robot, mode),
+            };
+            let brute = scene::brute(&body, &kin, &q0);
+            for &pool in &pools_for(k, 2) {
+                let mut e = json!({"ev": "collision", "pool": pool, "mode": mode_name, "tool": false, "base": true, "nenv": nenv,
+                    "table": tj, "def_env": def_env, "def_robot": def_robot, "pairs": pairs_json(&brute), "class": "rx160-meshes", "case": 100_000 + k, "api": "collision_details"});
+                match guarded(|| in_pool(pool, || (body.collides(&q0, &kin), body.collision_details(&q0, &kin)))) {
+                    None => { e["outcome"] = json!("panic"); e["report"] = json!([]); e["verdict"] = json!(false); }
+                    Some((c, d)) => {
+                        e["outcome"] = json!("ok");
+                        e["report"] = json!(d.iter().map(|p| json!([p.0.min(p.1), p.0.max(p.1)])).collect::<Vec<_>>());
+                        e["verdict"] = json!(c);
+                    }
+                }
+                out.put(e);
+            }
+        }
+    }
 }
 
 // ------------------------------------------------------------------------------------------------
